@@ -178,12 +178,16 @@ func basisTerm(s script, calls []string) string {
 			return "(BBehind " + coqBool(observedOK(calls, "CUpdate")) + ")"
 		}
 		return "(BBehind true)"
+	case "behind-far":
+		return "(BBehind " + coqBool(observedOK(calls, "CUpdate")) + ")"
 	case "fork-ok":
 		return "(BFork true)"
 	case "fork-stale":
 		return "(BFork false)"
 	case "wallet-behind":
-		return "(BHostBehind true)"
+		// inputs older than the wallet's tip rebase backwards; for younger ones the verdict
+		// is the chain manager's
+		return "(BHostBehind " + coqBool(observedOK(calls, "CUpdate")) + ")"
 	}
 	return "BUnknown"
 }
